@@ -8,7 +8,7 @@ import ast
 
 from ..core import AnchorError, call_name, norm, short, own_nodes, kwarg, FUNC_TYPES
 from ..cfg import cfg_of
-from ..lib import calls_in, stmts_in, gate, must_pass, node_has, params
+from ..lib import calls_in, stmts_in, gate, must_pass, node_has, params, dominating_facts
 
 COMP = 'jedi.api.completion'
 CLS = 'jedi.api.classes'
@@ -243,9 +243,62 @@ def rule_g(repo, chk):
     chk.ob('C04.g', ok, sa, 'whether `x.attr = ...` assigns to the instance is decided by resolving the receiver name (works inside closures)')
 
 
+ENUMERATORS = [
+    # the generators/collectors whose answer is "all of them": an early exit of a loop drops names
+    ('jedi.inference.value.klass', 'ClassMixin.py__mro__', 'the classes of the MRO'),
+    ('jedi.inference.value.module', 'ModuleMixin.star_imports', 'the modules reached through `from x import *`'),
+    ('jedi.inference.value.module', 'ModuleMixin.get_filters', 'the filters of a module (own names, star imports, module attributes)'),
+    ('jedi.inference.value.module', 'ModuleMixin.iter_star_filters', 'one filter per star-imported module'),
+    ('jedi.inference.value.instance', '_BaseTreeInstance.get_filters', 'the filters of an instance'),
+    ('jedi.inference.value.klass', 'ClassMixin.get_filters', 'the filters of a class'),
+    ('jedi.inference.context', 'ModuleContext.get_filters', 'the filters of a module context'),
+    ('jedi.inference.context', 'get_global_filters', 'the scope chain'),
+]
+
+
+def rule_h(repo, chk):
+    chk.clause('C04.h', 'the enumerations completion draws from are exhaustive: no loop of py__mro__, star_imports, get_filters (module, class, '
+                        'instance, module context), iter_star_filters, get_global_filters is left early (break/return; `continue` only for '
+                        'an element that is itself skipped); every MRO entry of every base is yielded unless already present; star imports '
+                        'are followed transitively')
+    n = 0
+    for mod, q, what in ENUMERATORS:
+        f = repo.find(mod, q)
+        loops = [l for l in own_nodes(f) if isinstance(l, (ast.For, ast.While))]
+        for lp in loops:
+            n += 1
+            esc = [x for x in ast.walk(lp) if isinstance(x, (ast.Break, ast.Return))]
+            head = 'while %s' % short(lp.test, 40) if isinstance(lp, ast.While) else 'for %s in %s' % (norm(lp.target), short(lp.iter, 40))
+            chk.ob('C04.h', not esc, lp, '%s: the loop `%s` enumerates %s without break/return' % (q, head, what),
+                   'left early at L%s' % esc[0].lineno if esc else '')
+    chk.floor('C04.h', n, 10)
+    m = repo.find('jedi.inference.value.klass', 'ClassMixin.py__mro__')
+    ys = [y for y in own_nodes(m) if isinstance(y, ast.Yield) and norm(y.value) == 'cls_new']
+    ok = len(ys) == 1
+    if ok:
+        facts = dominating_facts(m, ys[0])
+        ok = [norm(e) for e, pol in facts if pol] == ['cls_new not in mro'] or \
+            all(norm(e) in ('cls_new not in mro', 'cls_new in mro') for e, pol in facts)
+    chk.ob('C04.h', ok, m, 'an inherited class is yielded under no other condition than "not yet in the mro"')
+    st = repo.find('jedi.inference.value.module', 'ModuleMixin.star_imports')
+    rec = [c for c in calls_in(st) if call_name(c) == 'star_imports']
+    ok = len(rec) >= 1 and all(any(isinstance(p_, ast.For) for p_ in _parents(c, st)) for c in rec)
+    chk.ob('C04.h', ok, st, 'star imports are transitive: star_imports() of every star-imported module is included')
+    acc = [s for s in stmts_in(st, ast.AugAssign) if norm(s.target) == 'modules']
+    ok = any(norm(s.value) == 'new' for s in acc) and any('star_imports()' in norm(s.value) for s in acc)
+    chk.ob('C04.h', ok, st, 'both the imported modules and their own star imports are accumulated')
+
+
+def _parents(node, stop):
+    p = getattr(node, '_parent', None)
+    while p is not None and p is not stop:
+        yield p
+        p = getattr(p, '_parent', None)
+
+
 def describe(chk):
     chk.undecided('completeness against the live object and which names the engine finds (run-time); keyword and string/path completions; '
                   'case-variant handling beyond the lower-casing of both sides')
 
 
-RULES = [('C04.a', rule_a), ('C04.b', rule_b), ('C04.c', rule_c), ('C04.d', rule_d), ('C04.e', rule_e), ('C04.f', rule_f), ('C04.g', rule_g)]
+RULES = [('C04.a', rule_a), ('C04.b', rule_b), ('C04.c', rule_c), ('C04.d', rule_d), ('C04.e', rule_e), ('C04.f', rule_f), ('C04.g', rule_g), ('C04.h', rule_h)]
